@@ -1,5 +1,6 @@
 import Flowjaxv.Driver.Util
 import Flowjaxv.Model.Tree
+import Flowjaxv.Model.UnwrapKnot
 /-!
 Driver op for the pytree / wrapper model (`Model/Tree.lean`, property C12):
 
@@ -10,6 +11,13 @@ Driver op for the pytree / wrapper model (`Model/Tree.lean`, property C12):
   pytree ctor <v> <tree>          array leaves `id:data` of `constructor(v)` (ERR on a wrong length)
   pytree upd <tree u> <tree p>    array leaves of `apply_updates(p, u)` (ERR when it raises)
   pytree slice <i> <tree>         skeleton + leaves of the `i`-th slice of a vmapped-built tree
+  pytree gunwrap <tree>           the GENERATED `unwrap` (`Gen/UnwrapGen.lean` through `Model/UnwrapKnot.lean`): skeleton | idempotent |
+                                  no wrappers | batch dims of computed arrays | == hand `unwrap` (structure and data) | same with
+                                  3 more units of fuel | generated `recursive_unwrap` of the root (when a wrapper) == hand
+  pytree gpart <tree>             the GENERATED partition statement of `fit_to_data`: the fields of `part` | `fit_to_variational_target`'s
+                                  gives the same halves | == hand `partP` / `partS`
+  pytree gnt <tree>               the GENERATED `non_trainable`: skeleton | ids of the params half of the generated partition of it |
+                                  ids of its static half | == hand `nonTrainableT`
 
 `tree` in prefix notation, one token per field:
   N | A id ix arr | S id | C n tree×n | W kind tag batch n tree×n     kind ∈ NT BR WH WN LA, batch = int list
@@ -147,6 +155,33 @@ def pytree : Handler
       match applyU addArr u p with
       | some p' => pure s!"{showLeaves (leaves p')} | {skel p'}"
       | none => .error "raises"
+  | "gunwrap" :: toks => do
+      let (t, rest) ← parsePT toks
+      if !rest.isEmpty then .error "trailing tokens"
+      let r := genUnwrap drvF t
+      let r2 := genUnwrap drvF r
+      let hand := unwrap drvF t
+      let fuel := full (unwrapFuel drvF (wdepth t + 3) t) == full r
+      let rec_ := match t with
+        | .wrap _ _ _ _ => full (genRecursiveUnwrap drvF t) == full hand
+        | _ => true
+      pure s!"{skel r} | {showBool (full r2 == full r)} | {showBool (noWrap r)} | {computedDims r} | {showBool (full r == full hand)} | {showBool fuel} | {showBool rec_}"
+  | "gpart" :: toks => do
+      let (t, rest) ← parsePT toks
+      if !rest.isEmpty then .error "trailing tokens"
+      let g := GenUnwrap.fitToDataPartition t
+      let v := GenUnwrap.fitToVariationalTargetPartition t
+      let p := g.1
+      let s := g.2
+      let same := full v.1 == full p && full v.2 == full s
+      let hand := full (partP t) == full p && full (partS t) == full s
+      pure s!"{leafIds (leaves p)} | {leafIds (leaves s)} | {showNats (statics p)} | {showNats (statics s)} | {(ravel p).length} | {showBool (full (combine p s) == full t)} | {skel p} | {skel s} | {showBool same} | {showBool hand}"
+  | "gnt" :: toks => do
+      let (t, rest) ← parsePT toks
+      if !rest.isEmpty then .error "trailing tokens"
+      let r := GenUnwrap.nonTrainable t
+      let g := GenUnwrap.fitToDataPartition r
+      pure s!"{skel r} | {leafIds (leaves g.1)} | {leafIds (leaves g.2)} | {showBool (full r == full (nonTrainableT t))}"
   | "slice" :: i :: toks => do
       let (t, rest) ← parsePT toks
       if !rest.isEmpty then .error "trailing tokens"
